@@ -31,3 +31,12 @@ CLAIMED["C01"] = (
  "Does not decide kernel readiness, peer behaviour, loop liveness or misuse (two reads started on one object).",
  COMMON_NOTE + "Recursive completions are summarised as a least fixpoint (exactly once provided the recursion ends). Parking through a reactor-method handler counts as one discharge by convention; the handler and arming rules verify the two halves of that convention.",
  "DESIGN.md section 5 C01")
+
+CLAIMED["C04"] = (
+ "enum typestate over guard literals (dominator chain), control-dependence on the timerfd read, path enumeration of Unset, success-edge pairing of state/pendingTimers updates",
+ "Static necessary-condition analysis. Decides that stateClosed is absorbing, that the internal timer's handler reaches the user function only under a "
+ "successful read(2) of the timerfd (and re-registers on a stale event), that arming happens only in stateReady with state/pendingTimers updated on "
+ "the success edge, that the expiry closure resets before the user runs, that Unset disarms with a zero spec and removes the interest, that the "
+ "armed spec is one-shot, and the cancelled-flag protocol of ScheduleRepeating. Does not decide wall-clock clauses (delay elapsed, spacing) nor that the timer fires.",
+ COMMON_NOTE,
+ "DESIGN.md section 5 C04")
